@@ -20,7 +20,11 @@ def main():
             case = mod.with_cc(case) if hasattr(mod, "with_cc") else case
             obs = mod.run_impl(case)
             print("implementation:", json.dumps(obs, ensure_ascii=False, default=str)[:3000])
-            v = mod.monitor(case, obs)
+            if isinstance(case, dict) and case.get("op") == "render_race":
+                from harness.props.common import race_verdict
+                v = race_verdict(case, obs)
+            else:
+                v = mod.monitor(case, obs)
             print("property verdict on the implementation:", v or "holds")
             try:
                 from harness.driver import run_model
